@@ -18,13 +18,16 @@ MODULES = [
     "Gnmi.Props.C05Refine",
 ]
 
-THEOREMS = ["Gnmi.C05L." + t for t in [
+THEOREMS = ["Gnmi.SubLTS." + t for t in [
+    # the walker may visit a leaf once per matching subscription path (Req.extra), not more often
+    "count_le_extra_of_not_mem", "visit_beyond_extra",
+]] + ["Gnmi.C05L." + t for t in [
     # run forms over the LTS: the premise PollQuiet of poll_rounds derived; every maximal run of a ONCE RPC ends it
     "progInv_reach", "quiet_of_stuck", "pollQuiet_of_stuck", "stuck_of_quiet", "stuck_of_fin",
     "poll_rounds_env", "poll_first_round_env", "noAbort_status", "once_ends_ok_run", "once_ends_ok_run_accepted",
     "quiet_step", "ended_step", "poll_rounds_counted",
     # maximal runs exist: the server threads of an RPC terminate (measure progMeasure)
-    "cntTodo_visit", "progMeasure_step", "server_run_terminates", "once_ends_ok_progress",
+    "sum_visit_lt", "cntTodo_visit", "progMeasure_step", "server_run_terminates", "once_ends_ok_progress",
 ]] + ["Gnmi.Refine." + t for t in [
     # a live ONCE / POLL subscriber against its LTS client: sender run (with drained), flow control
     "pdequeue_sim", "prelease_sim", "ppump_sim", "ppumpAll_sim", "gateF_simX", "stepF_simX",
